@@ -34,11 +34,17 @@ COMPONENTS = {"real": ["smpl_extract.actions.determine_image_type, alcohol/mdf, 
               "stub": ["SimFile for raw/2352/MDX; virtual FS for the two cue arms", "stdout captured", "sandboxed output"]}
 ASSUMPTIONS = ["the 2352 encoding pads the last sector's user data; MDX 'eof' = header + data length",
                "purely differential - the raw arm itself is validated by C01/C02"]
-EXPECTED_PROBES = ["akai", "roland", "size_not_multiple_of_2048", "mdf_partial_sector_reads", "audio_cue_is_cdda", "ls_leaf_compared", "trimmed_dump"]
+EXPECTED_PROBES = ["akai", "roland", "size_not_multiple_of_2048", "mdf_partial_sector_reads", "audio_cue_is_cdda", "ls_leaf_compared", "trimmed_dump", "partial_raw_sector_at_end"]
 SHRINK = {"max_attempts": 60, "max_seconds": 120.0, "simple_values": {"policy": ["contiguous"]}}
 
 
 def gen(rng: random.Random, tier: str, index: int) -> dict:
+    sc = _gen(rng)
+    sc["raw_tail"] = rng.choice([0, 0, 1, 15, 16, 17, 100, 2351]) if rng.random() < 0.5 else 0
+    return sc
+
+
+def _gen(rng: random.Random) -> dict:
     if rng.random() < 0.75:
         m = gen_akai(rng, max_parts=2, max_vols=2, max_files=4, big=False)
         if rng.random() < 0.5:
@@ -77,13 +83,14 @@ def _paths(sc: dict):
     return out
 
 
-def _run_arm(arm: str, img: bytes, paths, res: RunResult):
+def _run_arm(arm: str, img: bytes, paths, res: RunResult, raw_tail: int = 0):
     """Returns dict(kind, ls{path:(stdout,exc)}, export(stdout, tree digest, exc), simfile)."""
     vfs = None
     if arm == "raw":
         target = sf = SimFile(img)
     elif arm == "s2352":
-        target = sf = SimFile(K.to_2352(img))
+        # a rip may stop in the middle of a raw sector: the incomplete sector carries no usable data
+        target = sf = SimFile(K.to_2352(img) + bytes([0x5A]) * raw_tail)
         sf.watch = []
     elif arm == "mdx":
         target = sf = SimFile(K.to_mdx(img))
@@ -91,7 +98,7 @@ def _run_arm(arm: str, img: bytes, paths, res: RunResult):
         vfs = VirtualFS({"/vfs/d.cue": K.data_cue("d.bin", "MODE1/2048").encode(), "/vfs/d.bin": img})
         target, sf = "/vfs/d.cue", None
     else:
-        vfs = VirtualFS({"/vfs/d.cue": K.data_cue("d.bin", "MODE1/2352").encode(), "/vfs/d.bin": K.to_2352(img)})
+        vfs = VirtualFS({"/vfs/d.cue": K.data_cue("d.bin", "MODE1/2352").encode(), "/vfs/d.bin": K.to_2352(img) + bytes([0x5A]) * raw_tail})
         target, sf = "/vfs/d.cue", None
     out = {"ls": {}, "kind": None}
     import contextlib
@@ -149,7 +156,9 @@ def run(sc: dict) -> RunResult:
         nontrivial = True
     arms = {}
     for arm in sc.get("arms", ARMS):
-        arms[arm] = _run_arm(arm, img, paths, res)
+        arms[arm] = _run_arm(arm, img, paths, res, raw_tail=sc.get("raw_tail", 0))
+    if sc.get("raw_tail"):
+        res.probes["partial_raw_sector_at_end"] += 1
     base = arms.get("raw")
     if base is not None:
         for arm, o in arms.items():
